@@ -183,3 +183,6 @@ def run(prog, rep):
         rep.rule('R5.5', 'the skip primitive (SkipValueImpl, both readers) advances by exactly one value for every first byte: '
                          '1 + length-field + payload bytes and count (x2 for maps) nested values', floor=512)
         msgpack_tables.check_skip_extent(prog, rep, 'R5.5')
+        rep.rule('R5.7', 'the skip primitive and the readers keep every header-declared length in an integer object wide enough for its length '
+                         'field: the extent skipped is the declared one for payloads of every size', floor=20)
+        msgpack_tables.narrow_findings(prog, rep, 'R5.7')
